@@ -68,7 +68,14 @@ class NonCacheRewriter {
 
 class CacheRewriter extends NonCacheRewriter {
   rewrite (code, file) {
-    const response = super.rewrite(code, file)
+    let response
+    try {
+      response = super.rewrite(code, file)
+    } catch (e) {
+      // the file is not served rewritten: a map cached by an earlier rewrite no longer applies
+      removeRewrittenSourceMap(file)
+      throw e
+    }
 
     try {
       const { metrics, content } = response
